@@ -32,6 +32,7 @@
 #include <sys/stat.h>
 #include <sys/wait.h>
 #include "TasmanianSparseGrid.hpp"
+#include "caselimit.hpp"
 
 using namespace TasGrid;
 typedef TasmanianSparseGrid G;
@@ -468,7 +469,7 @@ int main(int argc, char **argv) {
         fflush(stdout); fflush(stderr);
         pid_t pid = fork();
         if (pid == 0) {
-            alarm((unsigned) case_timeout);
+            verif_case_limit(case_timeout);
             G g, h; bool setup_ok = true;
             for (auto &l : c) {
                 Tok k; { std::istringstream ss(l); std::string t; while (ss >> t) k.t.push_back(t); }
@@ -495,7 +496,7 @@ int main(int argc, char **argv) {
             _exit(0);
         }
         int status = 0; waitpid(pid, &status, 0);
-        if (WIFSIGNALED(status)) { if (WTERMSIG(status) == SIGALRM) printf("crash hang no return within %d s\n", case_timeout); else printf("crash signal %d\n", WTERMSIG(status)); }
+        if (WIFSIGNALED(status)) { if (verif_is_timeout(WTERMSIG(status))) printf("crash hang no return within %d s\n", case_timeout); else printf("crash signal %d\n", WTERMSIG(status)); }
         else if (WIFEXITED(status) && WEXITSTATUS(status) != 0) printf("crash exit %d\n", WEXITSTATUS(status));
         fflush(stdout);
     }
